@@ -10,6 +10,9 @@ Sub-checks: `drange` (one call per case) and `session` (2-4 calls on the same en
 Bug classes 11-20 of the builder brief: 11 -> `session`; 13 -> raw types of the endpoints and of the bump; 14 -> one object for both endpoints;
 17 -> Calendar built with its optional parameters; 19 -> start days on month / year boundaries for the bumps that are not month based, b bumps from a
 time of day; 20 -> compound tenors with the small part first. 12, 15, 16, 18 do not apply (no containers, tables, user functions or vector arguments).
+Classes 21-29 (second pass): 21 -> both endpoints zone-aware in one fixed-offset zone (`tz`); 27 -> t1 a few microseconds short of / past a step, endpoints a few
+microseconds apart (`eps_us`, timedelta bumps); 29 -> zero bumps get their own label. 22 (Calendar window that does not contain the range) and 28 (the session empties
+every list it was handed) were there already; 23-26 do not apply (no renames, compiled objects, arrays; bump=None is not a bump of the statement).
 """
 import datetime
 import json
@@ -37,7 +40,19 @@ ASSUMPTIONS = [
     'session: the follow-up calls are the same call again / t1 twice or half as far (whole days kept) / endpoints swapped with the bump negated / the bump negated / a longer stride, on the SAME objects; '
     'a swap that would start a month-based bump after the 28th is replaced by a repeat. State kept by the library across CASES of one process also reaches the checks: a replay of a shrunk session '
     'may then need the earlier calls (the message lists the calls of the session made so far)',
+    'zone-aware endpoints (8% of the cases): BOTH endpoints in ONE zone object with a fixed non-zero offset (datetime.timezone +05:30 / -08:00, dateutil tzoffset +09:00, pytz.FixedOffset -03:00), as datetime or pd.Timestamp; '
+    'the result must be the reference list of wall times in that zone (same instants, every element aware with the same offset). Zones with daylight saving are outside: the statement does not say whether a bump is '
+    'wall-clock or elapsed time; one aware and one naive endpoint cannot be compared at all',
+    'zone-aware endpoints with a month-based part that drange iterates through dt_bump (a negative or zero single m/q/y bump, any compound tenor with m/q/y) raise TypeError today (dt_bump drops the tzinfo): '
+    'finding F37, fixed in /repo (replay replays/C10/F37-*.json): generated by default, left out only with PV_C10_EXCLUDE_FIXED=1',
+    'microsecond near misses (t1 1-7 microseconds short of / past a whole number of steps, endpoints 1-7 microseconds apart) only with timedelta bumps in `drange` (the statement puts intraday endpoints with timedelta bumps; '
+    'rrule works at second resolution; session arithmetic is in milliseconds)',
 ]
+
+# zone-aware endpoints with a month-based part that drange iterates through dt_bump ('-1m' backwards, '0m', every compound tenor with m / q / y): dt_bump builds the
+# moved date with _ymd (pyg_base/_dates.py:396-400), which drops the tzinfo, and drange then compares a naive with an aware datetime -> TypeError. Reported as a defect;
+# generated by default since dt_bump keeps the tzinfo (F37); PV_C10_EXCLUDE_FIXED=1 leaves them out
+INCLUDE_AWARE_MONTH_PARTS = os.environ.get('PV_C10_EXCLUDE_FIXED', '') != '1'      # F37, fixed in /repo: generated by default
 
 DAY = datetime.timedelta(1)
 _UNIT_SECONDS = dict(d=86400, w=7 * 86400, h=3600, n=60, s=1)
@@ -180,6 +195,51 @@ def _cal_opts(draw):
                 lo=draw(st.sampled_from([None, 3, -400])), hi=draw(st.sampled_from([None, 10, 400])), adj=draw(st.sampled_from(['m', 'f', 'p'])))
 
 
+_ZONES = ['+05:30', '-08:00', 'dateutil+09:00', 'pytz-03:00']
+
+
+def _needs_dt_bump_on_months(bump, span):
+    """True when drange has to iterate dt_bump over a month-based part (see INCLUDE_AWARE_MONTH_PARTS): not for t0 == t1, a positive single bump, or a single bump of the wrong sign"""
+    if not _month_parts(bump) or not span:
+        return False
+    toks = _TOKEN_I.findall(bump)
+    if len(toks) > 1:
+        return True
+    n = int(toks[0][0] + toks[0][1])
+    return n == 0 or (n < 0 and span < 0)
+
+
+def _zone(draw, spec, session):
+    """class 21: both endpoints zone-aware, in one zone with a non-zero offset from UTC"""
+    if draw(st.integers(0, 11)):
+        return
+    tz = draw(st.sampled_from(_ZONES))
+    if not INCLUDE_AWARE_MONTH_PARTS and (_month_parts(spec['bump']) if session else _needs_dt_bump_on_months(spec['bump'], spec['span_s'])):
+        return
+    spec['tz'] = tz
+
+
+def _near_miss(draw, spec, step_ms, nel, sgn):
+    """class 27: t1 a few microseconds short of / past a whole number of steps from t0 (the last element is then out / in), or the endpoints only a few microseconds
+    apart (not equal: [t0] for a bump of the right sign, ValueError for the other sign); timedelta bumps only"""
+    if draw(st.integers(0, 4)):
+        return
+    eps = draw(st.sampled_from([-1, 1, -1, 1, -7, 3]))
+    how = draw(st.sampled_from(['on_step', 'on_step', 'on_step', 'asis', 'apart', 'apart']))
+    if how == 'apart':
+        span_ms, eps = 0, abs(eps)
+        wrong = draw(st.booleans())
+        mag = abs(spec['bump'][1]) or 1
+        spec['bump'] = [spec['bump'][0], (-sgn if wrong else sgn) * mag]
+        spec['right'] = not wrong
+    elif how == 'on_step' and step_ms and nel:
+        span_ms = nel * step_ms
+    else:
+        span_ms = abs(round(spec['span_s'] * 1000))
+    spec['span_s'] = sgn * span_ms / 1000.0
+    spec['eps_us'] = sgn * eps
+
+
 @st.composite
 def _case(draw, session=False):
     kind = draw(st.sampled_from(_KINDS if session else _KINDS * 3 + ['long']))
@@ -212,16 +272,22 @@ def _case(draw, session=False):
         nel = draw(st.integers(0, 60)) + draw(st.sampled_from([0, 3]))
         span = max(1, nel * max(n, 1) + draw(st.integers(0, max(n - 1, 0))))
         spec.update(t0=[o, draw(st.sampled_from([0, 0, 7200]))], span_s=sgn * _frac(draw, span, nel), bump=['td', bs * n * 86400])
+        if not session:
+            _near_miss(draw, spec, n * 86400000, nel, sgn)
     elif kind == 'td_subsecond':      # the timedelta branch is a plain loop: sub-second steps are valid there (milliseconds in the spec)
         step = draw(st.sampled_from([100, 250, 1100, 1, 333, 7]))
         nel = draw(st.integers(0, 40))
         span = max(nel * step + draw(st.sampled_from([0, 0, 0, step // 2])), 1)
         spec.update(t0=[o, draw(st.integers(0, 86399))], span_s=sgn * span / 1000.0, bump=['tdms', bs * step], route='drange')
+        if not session:
+            _near_miss(draw, spec, step, nel, sgn)
     elif kind == 'td_intraday':
         step = draw(st.sampled_from([1, 30, 60, 900, 3600, 5400, 21600, 86400 + 3600])) if draw(st.integers(0, 6)) else 0
         nel = draw(st.integers(0, 80))
         span = max(1, nel * max(step, 1) + draw(st.integers(0, max(step - 1, 0))))
         spec.update(t0=[o, draw(st.integers(0, 86399))], span_s=sgn * span, bump=['td', bs * step])
+        if not session:
+            _near_miss(draw, spec, step * 1000, nel, sgn)
     elif kind in ('d', 'w'):
         n = draw(st.integers(1, 9)) if draw(st.sampled_from([1] * 11 + [0])) else 0
         mult = 1 if kind == 'd' else 7
@@ -274,6 +340,7 @@ def _case(draw, session=False):
         cal = _cal_opts(draw)
         if cal:
             spec['cal'] = cal
+    _zone(draw, spec, session)
     return spec
 
 
@@ -304,6 +371,33 @@ def raw_instant(t, tag):
         return np.datetime64(t, 'ns')
     assert tag == 'ts', tag
     return pd.Timestamp(t)
+
+
+def zone(tag):
+    """the tzinfo object of a case (class 21): fixed offsets only, four implementations"""
+    if tag is None:
+        return None
+    if tag == '+05:30':
+        return datetime.timezone(datetime.timedelta(hours=5, minutes=30))
+    if tag == '-08:00':
+        return datetime.timezone(datetime.timedelta(hours=-8), 'PST')
+    if tag == 'dateutil+09:00':
+        from dateutil import tz
+        return tz.tzoffset('JST', 9 * 3600)
+    assert tag == 'pytz-03:00', tag
+    import pytz
+    return pytz.FixedOffset(-180)
+
+
+def aware_instant(t, tag, tz):
+    """the wall time t in the zone tz (None: naive) in the raw type `tag`; only datetime and pd.Timestamp can carry a zone"""
+    if tz is None:
+        return raw_instant(t, tag)
+    t = t.replace(tzinfo=tz)
+    if tag in ('np_us', 'np_ns', 'ts'):
+        import pandas as pd
+        return pd.Timestamp(t)
+    return t
 
 
 def raw_bump(b, tag):
@@ -369,8 +463,9 @@ def invoke(what, f, a0, a1, b, limit, exp):
         raise Violation('%s raised %s: %s' % (what, type(e).__name__, str(e)[:200]))
 
 
-def judge(what, status, res, exp, t0, t1):
-    """the outcome of one call against the single-call oracle; returns the list (or None for the ValueError case)"""
+def judge(what, status, res, exp, t0, t1, tz=None):
+    """the outcome of one call against the single-call oracle; returns the list (or None for the ValueError case). exp, t0, t1 are wall times; with a zone tz the
+    result must be those wall times in that zone: aware elements with the zone's offset, the same instants"""
     if exp is None:
         check(status == 'ValueError', '%s: the bump points away from t1 (or is zero), expected ValueError but got %s', what, res)
         return None
@@ -378,6 +473,13 @@ def judge(what, status, res, exp, t0, t1):
     check(isinstance(res, list), '%s returned %s', what, type(res).__name__)
     got = list(res)
     check(all(isinstance(t, datetime.datetime) for t in got), '%s returned non-datetimes: %s', what, got[:3])
+    if tz is not None:
+        off = tz.utcoffset(None)
+        check(all(t.tzinfo is not None and t.utcoffset() == off for t in got), '%s: the endpoints are zone-aware (offset %s) but the result has elements that are naive or in another zone: %s', what, off, short(got[:3], 160))
+        exp = [t.replace(tzinfo=tz) for t in exp]
+        t0, t1 = t0.replace(tzinfo=tz), t1.replace(tzinfo=tz)
+    else:
+        check(all(t.tzinfo is None for t in got), '%s: the endpoints are naive but the result has zone-aware elements: %s', what, short(got[:3], 160))
     if got != exp:
         raise Violation('%s returned %i elements %s ... %s; the reference iteration gives %i elements %s ... %s'
                         % (what, len(got), short(got[:3], 120), short(got[-2:], 80), len(exp), short(exp[:3], 120), short(exp[-2:], 80)))
@@ -416,19 +518,21 @@ def run_drange(spec):
     from pyg_base import drange
     t0 = mkdt(*spec['t0'])
     span_ms = round(spec['span_s'] * 1000)
-    t1 = t0 + datetime.timedelta(milliseconds=span_ms)
+    eps_us = spec.get('eps_us', 0)
+    t1 = t0 + datetime.timedelta(milliseconds=span_ms, microseconds=eps_us)
     bump = _bump_obj(spec['bump'])
     kind = spec['kind']
     raw = spec.get('raw') or ['dt', 'dt', 'py']
-    a0 = raw_instant(t0, raw[0])
-    a1 = a0 if spec.get('same_obj') else raw_instant(t1, raw[1])
+    tz = zone(spec.get('tz'))
+    a0 = aware_instant(t0, raw[0], tz)
+    a1 = a0 if spec.get('same_obj') else aware_instant(t1, raw[1], tz)
     b = raw_bump(bump, raw[2])
     exp = expected(t0, t1, bump)
     limit = fuel_limit(exp, bump, span_ms)
     f = drange if spec['route'] == 'drange' else make_calendar(spec.get('cal'), t0).drange
     what = _what(spec['route'], a0, a1, b)
     status, res = invoke(what, f, a0, a1, b, limit, exp)
-    res = judge(what, status, res, exp, t0, t1)
+    res = judge(what, status, res, exp, t0, t1, tz)
     # ---- int / timedelta / 'nd' agree
     if kind == 'int' and spec.get('also') and bump != 0:
         other = datetime.timedelta(bump) if spec['also'] == 'td' else '%id' % bump
@@ -438,7 +542,7 @@ def run_drange(spec):
     cls = ['kind=' + kind, 'route=' + spec['route'], 'wrong_direction_or_zero' if exp is None else 'n=%s' % ('0' if n == 0 else '1-2' if n < 3 else '3+')]
     if spec['back']:
         cls.append('t1<t0')
-    if kind in ('int', 'td_days', 'd', 'w') and int(abs(spec['span_s'])) % 86400:
+    if kind in ('int', 'td_days', 'd', 'w') and (int(abs(spec['span_s'])) % 86400 or eps_us):
         cls.append('endpoints_not_whole_days_apart')
         if abs(spec['span_s']) < 86400:
             cls.append('endpoints_less_than_a_day_apart')
@@ -469,7 +573,34 @@ def run_drange(spec):
         cls.append('compound_small_part_first')
         if n >= 3:
             cls.append('compound_small_part_first_3+')
+    # ---- classes of the second pass (bug classes 21, 27, 29)
+    if tz is not None:
+        cls.append('zone_aware_endpoints')
+        if n >= 3:
+            cls.append('zone_aware_3+')
+            if isinstance(bump, str):
+                cls.append('zone_aware_period_string_3+')
+        if _month_parts(bump) and _needs_dt_bump_on_months(bump, span_ms):
+            cls.append('zone_aware_month_parts_through_dt_bump')
+    if eps_us:
+        cls.append('near_miss_microseconds')
+        step_us = abs(bump // datetime.timedelta(microseconds=1))
+        if not span_ms:
+            cls.append('near_miss_endpoints_microseconds_apart')
+            if exp is None:
+                cls.append('near_miss_endpoints_microseconds_apart_wrong_direction')
+        elif step_us and exp is not None and (abs(span_ms) * 1000) % step_us == 0:
+            cls.append('near_miss_t1_just_short_of_a_step' if (eps_us < 0) == (span_ms > 0) else 'near_miss_t1_just_past_a_step')
+    if _is_zero_bump(bump):
+        cls.append('zero_bump')
     return dict(nt=bool(_is_nt(kind, spec['back'], spec['bump'], exp)), cls=cls)
+
+
+def _is_zero_bump(bump):
+    """class 29: the falsy bumps 0, timedelta(0), '0d' ... (a zero step must raise ValueError unless t0 == t1)"""
+    if isinstance(bump, str):
+        return all(n == 0 for n, _ in ref_parts(bump))
+    return not bump
 
 
 # ----------------------------------------------------------------------------- sessions (class 11): several calls on the same endpoint objects
@@ -517,6 +648,8 @@ def session_apply(state, op, t0):
     if op == 'negate':
         return (off, span, _neg_bump(bump))
     if op == 'other':
+        if isinstance(bump, list) and bump[0] == 'td' and not bump[1] and abs(span) > 400 * 1000 * 1000:
+            return (off, span, ['td', 86400])       # a zero bump over weeks: a day, not 1000 s (tens of thousands of elements, beyond the cap of the reference)
         return (off, span, _other_bump(bump))
     assert op == 'same', op
     return state
@@ -539,10 +672,11 @@ def run_session(spec):
     raw = base.get('raw') or ['dt', 'dt', 'py']
     f = drange if base['route'] == 'drange' else make_calendar(base.get('cal'), t_first).drange
     instants, bumps = {}, {}
+    tz = zone(base.get('tz'))                    # ONE zone object for the whole session
 
     def instant(off):
         if off not in instants:
-            instants[off] = raw_instant(t_first + datetime.timedelta(milliseconds=off), raw[0] if off == 0 else raw[1])
+            instants[off] = aware_instant(t_first + datetime.timedelta(milliseconds=off), raw[0] if off == 0 else raw[1], tz)
         return instants[off]
 
     def bump_of(bs):
@@ -565,7 +699,7 @@ def run_session(spec):
         exp = expected(t0, t1, bump)
         what = 'call %i of the session %s: %s' % (i + 1, done, _what(base['route'], a0, a1, b))
         status, res = invoke(what, f, a0, a1, b, fuel_limit(exp, bump, span), exp)
-        got = judge(what, status, res, exp, t0, t1)
+        got = judge(what, status, res, exp, t0, t1, tz)
         if status == 'ok' and isinstance(res, list):
             del res[:]                           # the caller owns the list it was given
         done.append(_what(base['route'], a0, a1, b))
@@ -578,6 +712,8 @@ def run_session(spec):
     cls.append('calls=%i' % (1 + len(spec['ops'])))
     if base.get('cal'):
         cls.append('calendar_with_options')
+    if tz is not None:
+        cls.append('zone_aware_endpoints')
     return dict(nt=bool(nt), cls=sorted(set(cls)))
 
 
@@ -588,10 +724,15 @@ DRANGE_FLOORS = {
     'one_object_for_both_endpoints': 0.005, 'calendar_with_options': 0.025, 'calendar_with_short_window': 0.019,
     'start_on_month_or_year_boundary': 0.13, 'start_on_month_or_year_boundary_3+': 0.07, 'start_29_feb': 0.013, 'start_28_feb': 0.012, 'start_30_31': 0.03, 'start_31_dec_1_jan': 0.06,
     'b_from_a_time_of_day': 0.011, 'compound_small_part_first': 0.025, 'compound_small_part_first_3+': 0.009,
+    # second pass (classes 21, 27, 29)
+    'zone_aware_endpoints': 0.025, 'zone_aware_3+': 0.012, 'zone_aware_period_string_3+': 0.006,
+    'near_miss_microseconds': 0.011, 'near_miss_t1_just_short_of_a_step': 0.0027, 'near_miss_t1_just_past_a_step': 0.002, 'near_miss_endpoints_microseconds_apart': 0.003,
+    'near_miss_endpoints_microseconds_apart_wrong_direction': 0.0012, 'zero_bump': 0.015,
 }
 SESSION_FLOORS = {
     'op=same': 0.17, 'op=extend': 0.045, 'op=shorten': 0.035, 'op=reverse': 0.09, 'op=negate': 0.04, 'op=other': 0.045, 'later_call_3+': 0.15, 'later_call_wrong_direction': 0.09,
     'calls=3': 0.06, 'calls=4': 0.1, 'raw_endpoint_type': 0.08, 'raw_bump_type': 0.01, 'calendar_with_options': 0.03, 'kind=b': 0.045, 'kind=compound': 0.045, 'kind=month': 0.04, 'kind=equal': 0.014,
+    'zone_aware_endpoints': 0.04,
 }
 
 SUBS = [
